@@ -92,9 +92,15 @@ def mk_dataset(variant, temporal=False, seed=0, shift=0):
     return Dataset(m, descriptors={'subj': 's1'}, obs_descriptors=od, channel_descriptors=cd)
 
 
-def mk_model(kind, variant, seed=0):
+def _cvsets(variant, seed):
+    from rsatoolbox.inference import sets_k_fold
+    d = mk_rdms((variant[0], False), n_cond=6, seed=seed)
+    return sets_k_fold(d, k_rdm=1, k_pattern=2, random=False, pattern_descriptor='name')
+
+
+def mk_model(kind, variant, seed=0, n_cond=4):
     from rsatoolbox import model as M
-    basis = mk_rdms(variant, shift=20, n_rdm=2 if kind != 'fixed' else 1, seed=seed)
+    basis = mk_rdms(variant, shift=20, n_rdm=2 if kind != 'fixed' else 1, seed=seed, n_cond=n_cond)
     if variant[1]:
         basis.dissimilarities = np.nan_to_num(basis.dissimilarities, nan=1.234)
     cls = {'fixed': M.ModelFixed, 'weighted': M.ModelWeighted, 'select': M.ModelSelect,
@@ -163,7 +169,10 @@ def _overrides(variant, seed):
         'fit_interpolate': {'model': lambda: mk_model('interpolate', variant, seed)},
         'fit_mock': {'model': lambda: mk_model('fixed', variant, seed)},
         'calc_rdm_crossnobis': {'cv_descriptor': lambda: 'fold'},
-        'calc_rdm_poisson_cv': {'cv_descriptor': lambda: 'fold'},
+        'calc_rdm_poisson_cv': {'cv_descriptor': lambda: 'fold', 'descriptor': lambda: 'conds'},
+        'TemporalDataset': {'measurements': lambda: np.round(g.uniform(0.5, 2, size=(4, 3, 2)), 3)},
+        'model_from_dict': {'model_dict': lambda: mk_model('weighted', nonan, seed).to_dict()},
+        'result_from_dict': {'result_dict': lambda: mk_result(nonan, seed).to_dict()},
         'calc_one_similarity': {'cv_desc_i': lambda: np.array([0, 0, 0, 0, 1, 1, 1, 1]),
                                 'cv_desc_j': lambda: np.array([0, 0, 0, 0, 1, 1, 1, 1])},
         'calc_rdm_movie': {'dataset': lambda: mk_dataset(variant, temporal=True, seed=seed)},
@@ -172,7 +181,11 @@ def _overrides(variant, seed):
         'num_index': {'descriptor': lambda: [1, 2, 1]}, 'bool_index': {'descriptor': lambda: [1, 2, 1]},
         'desc_eq': {'a': lambda: {'a': [1, 2, 3]}},
         'ensure_double': {'a': lambda: np.arange(6).reshape(2, 3)},
-        'crossval': None, 'cv_noise_ceiling': None,   # built explicitly below
+        'crossval': {'train_set': lambda: _cvsets(variant, seed)[0], 'test_set': lambda: _cvsets(variant, seed)[1],
+                     'ceil_set': lambda: _cvsets(variant, seed)[2], 'rdms': lambda: mk_rdms(nonan, n_cond=6, seed=seed),
+                     'models': lambda: [mk_model('fixed', nonan, seed, n_cond=6)], 'pattern_descriptor': lambda: 'name'},
+        'cv_noise_ceiling': {'test_set': lambda: _cvsets(variant, seed)[1], 'ceil_set': lambda: _cvsets(variant, seed)[2],
+                             'rdms': lambda: mk_rdms(nonan, n_cond=6, seed=seed), 'pattern_descriptor': lambda: 'name'},
         'get_searchlight_RDMs': {'data_2d': lambda: np.round(g.normal(size=(6, 27)), 3),
                                  'centers': lambda: np.array([13, 14]),
                                  'neighbors': lambda: [np.array([12, 13, 14, 4]), np.array([13, 14, 15, 5])],
@@ -180,10 +193,12 @@ def _overrides(variant, seed):
         'evaluate_models_searchlight': {'eval_function': lambda: __import__('rsatoolbox').inference.eval_fixed,
                                         'models': lambda: [mk_model('fixed', nonan, seed)]},
         'make_dataset': {'model': lambda: mk_model('fixed', nonan, seed), 'theta': lambda: None},
-        't_tests': {'evaluations': lambda: np.round(g.uniform(0.1, 0.9, size=(3, 6)), 3),
-                    'variances': lambda: np.round(np.diag(g.uniform(0.01, 0.05, size=3)), 4)},
-        't_test_0': {'evaluations': lambda: np.round(g.uniform(0.1, 0.9, size=(3, 6)), 3)},
-        't_test_nc': {'evaluations': lambda: np.round(g.uniform(0.1, 0.9, size=(3, 6)), 3),
+        't_tests': {'evaluations': lambda: np.round(g.uniform(0.1, 0.9, size=(6, 3, 4)), 3),
+                    'variances': lambda: np.round(g.uniform(0.01, 0.05, size=3), 4)},
+        't_test_0': {'evaluations': lambda: np.round(g.uniform(0.1, 0.9, size=(6, 3, 4)), 3),
+                     'variances': lambda: np.round(g.uniform(0.01, 0.05, size=3), 4)},
+        't_test_nc': {'evaluations': lambda: np.round(g.uniform(0.1, 0.9, size=(6, 3, 4)), 3),
+                      'variances': lambda: np.round(g.uniform(0.01, 0.05, size=3), 4),
                       'noise_ceil': lambda: 0.8},
         'extract_variances': {'variance': lambda: np.round(np.diag(g.uniform(0.01, 0.05, size=5)), 4)},
         'get_errorbars': {'model_var': lambda: np.round(g.uniform(0.01, 0.05, size=3), 4),
@@ -205,7 +220,7 @@ def _overrides(variant, seed):
         'eval_dual_bootstrap_random': {'N': lambda: 3},
         'bootstrap_testset': {'N': lambda: 3}, 'bootstrap_testset_pattern': {'N': lambda: 3}, 'bootstrap_testset_rdm': {'N': lambda: 3},
         'sets_of_k_pattern': {'k': lambda: 2, 'pattern_descriptor': lambda: 'name'},
-        'sets_of_k_rdm': {'k': lambda: 2}, 'sets_k_fold': {'k_rdm': lambda: 2, 'k_pattern': lambda: 2},
+        'sets_of_k_rdm': {'k': lambda: 1}, 'sets_k_fold': {'k_rdm': lambda: 2, 'k_pattern': lambda: 2},
         'sets_k_fold_rdm': {'k_rdm': lambda: 2}, 'sets_k_fold_pattern': {'k': lambda: 2},
         'sets_random': {'n_rdm': lambda: 1, 'n_pattern': lambda: 2},
         'input_check_model': {'models': lambda: [mk_model('fixed', variant, seed), mk_model('weighted', variant, seed)]},
@@ -510,8 +525,7 @@ def run_case(case, ctx):
         # the synthesised arguments are not admissible for this callable (or it is broken for
         # them): that is not C12's business; count it, other checks judge behaviour
         ctx.count('inapplicable-arguments')
-        ctx.note('inapplicable:%s:%s' % (qual, '/'.join(variant if isinstance(variant[0], str) else map(str, variant))
-                                         if False else qual), '%s: %s' % (type(e).__name__, str(e)[:120]))
+        ctx.note('inapplicable:%s:%s' % (qual, '/'.join(map(str, variant))), '%s: %s' % (type(e).__name__, str(e)[:120]))
         return
     ctx.states += 1
     ctx.case(dict(case, step='producer'))
